@@ -3,60 +3,91 @@ From Coq Require Import Lia.
 From Clikit Require Import Base.Prelude Base.Res Model.Conv Model.Format Model.Parser Model.Resolver Model.Run
      Model.Tokenizer Model.Switches Model.AppState Proofs.StrLemmas.
 
-Lemma path_eqb_spec a b : reflect (a = b) (path_eqb a b).
+Lemma pos_eqb_spec a b : reflect (a = b) (pos_eqb a b).
 Proof.
   revert b. induction a as [|x a IH]; intros [|y b]; cbn; try (constructor; congruence).
-  destruct (str_eqb_spec x y) as [->|Hn]; cbn; [|constructor; congruence].
+  destruct (Nat.eqb_spec x y) as [->|Hn]; cbn; [|constructor; congruence].
   destruct (IH b) as [->|Hn]; constructor; congruence.
 Qed.
 
-(* two override tables that agree on the effective value of every path make the same application *)
+(* the nested fixpoint of apply_cmd is apply_forest *)
+Lemma apply_cmd_eq st p n al d an len f subs :
+  apply_cmd st p (BCmd n al d an len f subs) =
+  BCmd n al d an (match lookup st p with Some b => b | None => len end) f (apply_forest st p 0 subs).
+Proof.
+  cbn [apply_cmd]. f_equal. generalize 0. induction subs as [|s r IH]; intros i; cbn [apply_forest]; [reflexivity|].
+  now rewrite IH.
+Qed.
+
+(* two override tables that agree on the effective value of every position make the same application *)
 Definition same_overrides (st st' : overrides) (a : application) : Prop := apply_state st a = apply_state st' a.
 
 (* recording the current effective value of p again does not change the application: this is exactly what the
    help resolver's restore does *)
-Lemma lookup_cons_same st p b q : lookup ((p, b) :: st) q = if path_eqb q p then Some b else lookup st q.
+Lemma lookup_cons_same st p b q : lookup ((p, b) :: st) q = if pos_eqb q p then Some b else lookup st q.
 Proof. reflexivity. Qed.
 
-(* The precise statement: if p currently resolves to a command whose effective leniency is b, then adding the
-   override (p, b) leaves apply_state unchanged. *)
-Fixpoint cmd_eff_ok (st : overrides) (pre : path) (p : path) (b : bool) (c : bcmd) : Prop :=
+(* The precise statement: if the command at position p has the effective leniency b, then adding the override (p, b)
+   leaves apply_state unchanged.  cmd_eff_ok st q p b c: c sits at position q; wherever p is met below, the value is b. *)
+Fixpoint cmd_eff_ok (st : overrides) (q : pos) (p : pos) (b : bool) (c : bcmd) : Prop :=
   match c with
   | BCmd n al d an len f subs =>
-    (pre ++ [n] = p -> (match lookup st p with Some x => x | None => len end) = b) /\
-    (fix go (l : list bcmd) : Prop := match l with [] => True | s :: r => cmd_eff_ok st (pre ++ [n]) p b s /\ go r end) subs
+    (q = p -> (match lookup st p with Some x => x | None => len end) = b) /\
+    (fix go (i : nat) (l : list bcmd) : Prop :=
+       match l with [] => True | s :: r => cmd_eff_ok st (q ++ [i]) p b s /\ go (S i) r end) 0 subs
   end.
-
-Lemma apply_cmd_add st p b : forall c pre, cmd_eff_ok st pre p b c -> apply_cmd ((p, b) :: st) pre c = apply_cmd st pre c.
+Fixpoint forest_eff_ok (st : overrides) (q : pos) (p : pos) (b : bool) (i : nat) (l : list bcmd) : Prop :=
+  match l with [] => True | s :: r => cmd_eff_ok st (q ++ [i]) p b s /\ forest_eff_ok st q p b (S i) r end.
+Lemma cmd_eff_ok_eq st q p b n al d an len f subs :
+  cmd_eff_ok st q p b (BCmd n al d an len f subs) <->
+  (q = p -> (match lookup st p with Some x => x | None => len end) = b) /\ forest_eff_ok st q p b 0 subs.
 Proof.
-  fix IH 1. intros [n al d an len f subs] pre [Hhere Hsubs]. cbn [apply_cmd].
-  f_equal.
-  - rewrite lookup_cons_same. destruct (path_eqb_spec (pre ++ [n]) p) as [E|E]; [|reflexivity].
-    specialize (Hhere E). rewrite E in *. destruct (lookup st p); congruence.
-  - induction subs as [|s r IHr]; [reflexivity|]. destruct Hsubs as [Hs Hr]. f_equal; [apply IH, Hs|apply IHr, Hr].
+  cbn [cmd_eff_ok]. generalize 0. intros i.
+  assert ((fix go (i : nat) (l : list bcmd) : Prop :=
+             match l with [] => True | s :: r => cmd_eff_ok st (q ++ [i]) p b s /\ go (S i) r end) i subs
+          <-> forest_eff_ok st q p b i subs) as E.
+  { revert i. induction subs as [|s r IH]; intros i; cbn [forest_eff_ok]; [tauto|]. rewrite IH. tauto. }
+  rewrite E. tauto.
 Qed.
 
-Definition app_eff_ok (st : overrides) (a : application) (p : path) (b : bool) : Prop :=
-  Forall (cmd_eff_ok st [] p b) (ap_cmds a).
+Lemma apply_cmd_add st p b : forall c q, cmd_eff_ok st q p b c -> apply_cmd ((p, b) :: st) q c = apply_cmd st q c.
+Proof.
+  fix IH 1. intros [n al d an len f subs] q H. apply cmd_eff_ok_eq in H as [Hhere Hsubs]. rewrite !apply_cmd_eq.
+  f_equal.
+  - rewrite lookup_cons_same. destruct (pos_eqb_spec q p) as [E|E]; [|reflexivity].
+    specialize (Hhere E). rewrite E in *. destruct (lookup st p); congruence.
+  - revert Hsubs. generalize 0. induction subs as [|s r IHr]; intros i Hsubs; cbn [apply_forest]; [reflexivity|].
+    destruct Hsubs as [Hs Hr]. f_equal; [apply IH, Hs|apply IHr, Hr].
+Qed.
+Lemma apply_forest_add st p b q : forall l i, forest_eff_ok st q p b i l ->
+  apply_forest ((p, b) :: st) q i l = apply_forest st q i l.
+Proof.
+  induction l as [|s r IH]; intros i H; cbn [apply_forest]; [reflexivity|]. destruct H as [Hs Hr].
+  rewrite (apply_cmd_add st p b s _ Hs), (IH _ Hr). reflexivity.
+Qed.
+
+Definition app_eff_ok (st : overrides) (a : application) (p : pos) (b : bool) : Prop :=
+  forest_eff_ok st [] p b 0 (ap_cmds a).
 
 Lemma apply_state_add st a p b : app_eff_ok st a p b -> apply_state ((p, b) :: st) a = apply_state st a.
-Proof.
-  intros H. unfold apply_state. f_equal. induction H as [|c r Hc Hr IH]; cbn; [reflexivity|].
-  rewrite (apply_cmd_add st p b c [] Hc), IH. reflexivity.
-Qed.
+Proof. intros H. unfold apply_state. f_equal. now apply apply_forest_add. Qed.
 
 (* a run never changes what later runs see, provided the restore records the effective value *)
+Definition help_resolver_ran (x : action) : bool := match x with AHelpCmd _ | AHelpFail _ => true | _ => false end.
 Definition restores_effective (st : overrides) (a : application) (toks : list str) : Prop :=
-  match sm_action (run_summary false (apply_state st a) toks) with
-  | AHelpCmd p => match eff st a p with Some b => app_eff_ok st a p b | None => True end
-  | _ => True
-  end.
+  if help_resolver_ran (sm_action (run_summary false (apply_state st a) toks)) then
+    match help_target_pos (apply_state st a) toks with
+    | Some p => match eff st a p with Some b => app_eff_ok st a p b | None => True end
+    | None => True
+    end
+  else True.
 
 Lemma run_on_state st a toks : restores_effective st a toks -> apply_state (fst (run_on st a toks)) a = apply_state st a.
 Proof.
   unfold restores_effective, run_on. cbn [fst].
-  destruct (sm_action (run_summary false (apply_state st a) toks)) as [|p|k|p|p|k]; try reflexivity.
-  destruct (eff st a p) as [b|]; [|reflexivity]. intros H. now apply apply_state_add.
+  destruct (sm_action (run_summary false (apply_state st a) toks)) as [|p|k|p|p|k]; cbn [help_resolver_ran]; try reflexivity.
+  all: destruct (help_target_pos (apply_state st a) toks) as [q|]; [|reflexivity].
+  all: destruct (eff st a q) as [b|]; [|reflexivity]; intros H; now apply apply_state_add.
 Qed.
 Lemma run_on_obs st st' a toks : apply_state st a = apply_state st' a -> snd (run_on st a toks) = snd (run_on st' a toks).
 Proof. intros H. unfold run_on. cbn [snd]. now rewrite H. Qed.
